@@ -687,8 +687,13 @@ primaryexpr(struct scope *s)
 		/* an unprefixed constant has the value of a char converted to int */
 		if (hexoct && tok.lit[0] == '\'' && targ->signedchar)
 			e = mkconstexpr(t, (signed char)chr);
+		else if (t->u.basic.issigned && t->size == 4)
+			e = mkconstexpr(t, (int_least32_t)chr);
 		else
 			e = mkconstexpr(t, chr);
+		/* a character (not an escape) must be representable in the type of the constant */
+		if (!hexoct && tok.lit[0] != '\'' && t->size < 4 && chr >> 8 * t->size)
+			error(&tok.loc, "character constant is not representable in its type");
 		if (*src != '\'')
 			error(&tok.loc, "character constant contains more than one character: %c", *src);
 		next();
